@@ -43,10 +43,12 @@
      would return", with EQUAL outputs), C02_cached_maint_is_reload (a maintenance step replaces the abstract value of
      exactly the evicted keys by t_reload), then tree-a's C02_storage_reload_transparent.
      What the full C02_refines of DESIGN.md would add, i.e. what this theorem leaves out — exactly:
-       (a) the SEGMENTS are kept in the plain association list of Model/Storage.v instead of a second cache; their
-           codec round-trips exactly on reachable, bounded segments (C02_segments_transparent), so the twin needs the
-           invariant "every stored segment is sg_valid" (seg's reachable_ok + the uint64 bounds as hypotheses) and the
-           same commutation proof with equality instead of t_reload;
+       (a) the SEGMENTS: done in the second twin, C02_refines_segments_partial at the end of this file (index = sorted
+           list of live series ids, segment objects in a second Model/Cache.v store with seg's codec); its side
+           condition: whenever the segments store is evicted or flushed, every segment of the table round-trips
+           through the codec (rt_ok; C02_segment_roundtrips: true of reachable segments within seg_bounded whose
+           metadata is valid UTF-8 with a rate below 2^32 — otherwise only up to fix_meta: known finding
+           metadata-invalid-utf8);
        (b) the tree codec is abstracted by what it decodes to (ct_enc = t_reload); the link to the bytes and to the
            dictionaries cache is C02_trees_with_dict_transparent + C02_dicts_transparent + C02_flush_order_*, not
            composed into one transition system; the node cap hypothesis (stored trees below MaxNodesSerialization) is
@@ -306,3 +308,51 @@ Example C02_refines_dict_nonvacuous :
    end = 10%N) /\
   snd (d_run 1024 None exd_hist dst_init) = snd (c_run None (dmap exd_hist) cst_init).
 Proof. exact refines_dict_nonvacuous. Qed.
+
+
+(* ================== the second twin: trees AND segments behind caches (builder cache) ==================
+   Model/StorageCached2.v: the cached state is an index (the sorted list of live series ids — what the dimensions
+   provide; C07_storage_index_sound), a segments store and a trees store, both Model/Cache.v object stores.
+   Storage.Put does segments.Get (a miss creates segment.New()), mutates, segments.Put; Storage.Get does segments.Get per
+   matching id; Delete and DeleteDataBefore do segments.Get, then segments.Delete or a mutation through the pointer.
+   Maintenance (Evict + completion of its saves, Flush+reopen) of EITHER store anywhere in the history.
+   Theorem: the outputs are LITERALLY those of the first twin on the same history without the segment maintenance, hence
+   equivalent to st_run (C02_refines_partial).
+   PARTIAL — exactly: (1) side condition segs_rt_at_maint (see (a) in the header): at every maintenance step of the
+   segments store all segments of the table round-trip through Bytes/FromBytes; (2) a FromBytes error is read as
+   segment.New() (never exercised under (1)); (3) the index is exact (dimensions cache not modelled: C07 +
+   C02_dimensions_transparent); (4) as before: saves complete inside the maintenance step, no write-back, sequential
+   histories, tree codec abstracted by t_reload (tree-b's C02_refines_dict_partial removes that for the trees store),
+   totals not claimed. *)
+From Pyro Require Import Model.StorageCached2 Proofs.StorageCached2Proofs.
+From Pyro Require Import Proofs.SegCodecJson.
+
+Theorem C02_refines_segments_partial : forall rt h,
+  segs_rt_at_maint rt h cst_init ->
+  snd (c2_run rt h c2_init) = snd (c_run rt (c2map h) cst_init) /\
+  (Forall ok_op (cstrip (c2map h)) ->
+   Forall2 out_equiv (snd (c2_run rt h c2_init)) (snd (st_run rt (cstrip (c2map h)) st_init))).
+Proof. exact cached2_storage_refines. Qed.
+Print Assumptions C02_refines_segments_partial.
+
+Theorem C02_cached2_step_commutes : forall rt o c2 cst, R2 c2 cst ->
+  R2 (fst (c2_step rt c2 o)) (fst (cst_step rt cst o)) /\ snd (c2_step rt c2 o) = snd (cst_step rt cst o).
+Proof. exact step2_commutes. Qed.
+Print Assumptions C02_cached2_step_commutes.
+
+(* when the side condition holds: seg's C14 round trip *)
+Theorem C02_segment_roundtrips : forall Kb s,
+  reachable Kb s -> seg_bounded s -> s_root s <> None -> meta_ok (s_meta s) -> rt_ok s.
+Proof. exact rt_ok_reachable. Qed.
+Print Assumptions C02_segment_roundtrips.
+
+Example C02_refines_segments_nonvacuous :
+  segs_rt_at_maint None ex2_hist cst_init /\
+  (let c2 := fst (c2_run None (firstn 3 ex2_hist) c2_init) in c_lfu (c2_segs c2) = [] /\ c_lfu (c2_trees c2) = []) /\
+  c_lfu (c2_segs (fst (c2_run None (firstn 5 ex2_hist) c2_init))) = [] /\
+  match snd (c2_run None ex2_hist c2_init) with
+  | [OutPut true; OutPut true; OutGet (Some a)] =>
+      go_tree a = TNode [] 0 7 [TNode [97%N] 0 7 [TNode [98%N] 3 3 []; TNode [99%N] 4 4 []]]
+  | _ => False
+  end.
+Proof. exact cached2_storage_refines_nonvacuous. Qed.
